@@ -9,33 +9,43 @@ VARIABLES i,        \* 0 = not started, 1..N = stopped at X[i], Exited
           ubp,      \* addresses of the user's breakpoints
           ncmd,     \* commands issued
           nbk,      \* of which break/remove (bounded by MaxBk so that histories are not all bookkeeping)
+          sg,       \* a SIGUSR1 sent by the user's environment: 0 none, 1 pending, 2 reported (not yet delivered)
           hist      \* commands issued so far (generation only; hidden by VIEW)
-vars == <<i, ubp, ncmd, nbk, hist>>
-View == <<i, ubp, ncmd, nbk>>
+vars == <<i, ubp, ncmd, nbk, sg, hist>>
+View == <<i, ubp, ncmd, nbk, sg>>
 
-Init == i = 0 /\ ubp = {} /\ ncmd = 0 /\ nbk = 0 /\ hist = <<>>
+Init == i = 0 /\ ubp = {} /\ ncmd = 0 /\ nbk = 0 /\ sg = 0 /\ hist = <<>>
 
 Log(c) == hist' = Append(hist, c @@ [at |-> i']) /\ ncmd' = ncmd + 1
-Break(a)  == /\ a \notin ubp /\ Cardinality(ubp) < MaxBps /\ i # Exited /\ nbk < MaxBk /\ nbk' = nbk + 1
+Break(a)  == /\ a \notin ubp /\ Cardinality(ubp) < MaxBps /\ i # Exited /\ nbk < MaxBk /\ nbk' = nbk + 1 /\ UNCHANGED sg
              /\ ubp' = ubp \cup {a} /\ UNCHANGED i /\ Log([cmd |-> "break_addr", addr |-> a])
-Remove(a) == /\ a \in ubp /\ i # Exited /\ nbk < MaxBk /\ nbk' = nbk + 1
+Remove(a) == /\ a \in ubp /\ i # Exited /\ nbk < MaxBk /\ nbk' = nbk + 1 /\ UNCHANGED sg
              /\ ubp' = ubp \ {a} /\ UNCHANGED i /\ Log([cmd |-> "remove_addr", addr |-> a])
-Start     == /\ i = 0 /\ i' = RefContinue(0, ubp) /\ Log([cmd |-> "start"]) /\ UNCHANGED <<ubp, nbk>>
-Continue  == /\ i \in 1..N /\ i' = RefContinue(i, ubp) /\ Log([cmd |-> "continue"]) /\ UNCHANGED <<ubp, nbk>>
-StepCmd(c) == /\ i \in 1..N
+Start     == /\ i = 0 /\ i' = RefContinue(0, ubp) /\ Log([cmd |-> "start"]) /\ UNCHANGED <<ubp, nbk, sg>>
+\* a pending signal is reported by the command that resumes the program (the program does not move);
+\* the following continue delivers it and runs on
+Continue  == /\ i \in 1..N
+             /\ IF sg = 1 THEN i' = i /\ sg' = 2 ELSE i' = RefContinue(i, ubp) /\ sg' = 0
+             /\ Log([cmd |-> "continue"]) /\ UNCHANGED <<ubp, nbk>>
+\* the environment sends SIGUSR1 to the stopped program (handled by the program: counted, otherwise harmless)
+SendSig   == /\ Signals /\ i \in 1..N /\ sg = 0 /\ ncmd + 2 < MaxCmd /\ i < TailPos
+             /\ sg' = 1 /\ UNCHANGED <<i, ubp, nbk>> /\ Log([cmd |-> "signal"])
+StepCmd(c) == /\ i \in 1..N /\ sg # 2               \* after a reported signal only `continue` is generated
               /\ MaxOf(Adm(c, i) \cup {i}) < TailPos      \* stay inside the recorded execution
               /\ (c = "stepi") => ~X[i].ext
-              /\ \E j \in Adm(c, i) \cup {RefContinue(i, ubp)} :
-                    /\ j <= MaxOf(Adm(c, i))
-                    /\ i' = j
+              /\ IF sg = 1 THEN i' = i /\ sg' = 2      \* cut short by the signal, and says so
+                 ELSE /\ sg' = sg
+                      /\ \E j \in Adm(c, i) \cup {RefContinue(i, ubp)} :
+                            /\ j <= MaxOf(Adm(c, i))
+                            /\ i' = j
               /\ Log([cmd |-> c]) /\ UNCHANGED <<ubp, nbk>>
 \* C11: restart re-creates the process with the user's breakpoints intact: they hit again at the same places
-Restart   == /\ Lifecycle /\ i # 0 /\ i' = RefContinue(0, ubp) /\ Log([cmd |-> "restart"]) /\ UNCHANGED <<ubp, nbk>>
+Restart   == /\ Lifecycle /\ i # 0 /\ sg = 0 /\ i' = RefContinue(0, ubp) /\ Log([cmd |-> "restart"]) /\ UNCHANGED <<ubp, nbk, sg>>
 \* C11: quitting (dropping the debugger) ends the session in any state; nothing may be left behind
 Drop      == /\ Lifecycle /\ ncmd > 0 /\ i' = Exited /\ ncmd' = MaxCmd /\ hist' = Append(hist, [cmd |-> "drop", at |-> i])
-             /\ UNCHANGED <<ubp, nbk>>
+             /\ UNCHANGED <<ubp, nbk, sg>>
 Cmd == \/ \E a \in BpCands : Break(a) \/ Remove(a)
-       \/ Start \/ Continue \/ Restart \/ Drop
+       \/ Start \/ Continue \/ Restart \/ Drop \/ SendSig
        \/ \E c \in {"stepi", "step", "next", "finish"} : StepCmd(c)
 Next == ncmd < MaxCmd /\ Cmd
 Spec == Init /\ [][Next]_vars
@@ -44,7 +54,7 @@ Spec == Init /\ [][Next]_vars
 TypeOK == i \in 0..Exited /\ ubp \subseteq BpCands
 StopsOnlyInExecution == i \in 0..Exited
 \* a position reached by `continue` is an enabled breakpoint (checked as an action property)
-ContinueStopsAtBp == [][(hist' # hist /\ hist'[Len(hist')].cmd \in {"start", "continue"} /\ i' # Exited)
+ContinueStopsAtBp == [][(hist' # hist /\ hist'[Len(hist')].cmd \in {"start", "continue"} /\ i' # Exited /\ sg # 1)
                          => Pc(i') \in ubp]_vars
 \* design-level prediction: does the address-keyed temporary-breakpoint algorithm meet the reference?
 ImplNextMeetsRef   == (i \in 1..N) => ImplNextOk(i, ubp)
